@@ -288,12 +288,16 @@ def _settle_inlined_constants(fn: ast.AST) -> int:
                     return node
 
             fn.body = [Sub().visit(x) for x in fn.body]
-        ct = _ConstTests()
-        new_body = []
-        for x in fn.body:
-            r = ct.visit(x)
-            new_body += r if isinstance(r, list) else [r]
         before = ast.dump(ast.Module(body=fn.body, type_ignores=[]))
+        _ConstTests.never_none = _never_none_names(fn)
+        try:
+            ct = _ConstTests()
+            new_body = []
+            for x in fn.body:
+                r = ct.visit(x)
+                new_body += r if isinstance(r, list) else [r]
+        finally:
+            _ConstTests.never_none = set()
         fn.body = new_body or [ast.Pass()]
         if ast.dump(ast.Module(body=fn.body, type_ignores=[])) != before:
             n += 1
@@ -419,12 +423,41 @@ def _sink_selected_continuation(P, module, fn: ast.AST) -> int:
     return n_done
 
 
+_NEVER_NONE_CALLS = {"time.time", "time.monotonic", "time.perf_counter", "time.time_ns", "len", "str", "int", "float", "list", "dict", "set", "tuple", "frozenset", "bool", "repr", "sorted", "uuid.uuid4"}
+
+
+def _never_none_names(fn: ast.AST) -> set:
+    """locals bound exactly once, to something that is never None (a clock reading, a display, a constructor's result)"""
+    stores, vals = {}, {}
+    for x in ast.walk(fn):
+        if isinstance(x, ast.Name) and isinstance(x.ctx, (ast.Store, ast.Del)):
+            stores[x.id] = stores.get(x.id, 0) + 1
+        if isinstance(x, ast.arg):
+            stores[x.arg] = stores.get(x.arg, 0) + 2
+        if isinstance(x, ast.Assign) and len(x.targets) == 1 and isinstance(x.targets[0], ast.Name):
+            vals[x.targets[0].id] = x.value
+    out = set()
+    for n, v in vals.items():
+        if stores.get(n) != 1:
+            continue
+        if isinstance(v, (ast.List, ast.Dict, ast.Set, ast.Tuple, ast.JoinedStr)) or (isinstance(v, ast.Constant) and v.value is not None):
+            out.add(n)
+        elif isinstance(v, ast.Call) and ast.unparse(v.func) in _NEVER_NONE_CALLS and not any(isinstance(a, ast.Starred) for a in v.args):
+            out.add(n)
+    return out
+
+
 class _ConstTests(ast.NodeTransformer):
     """After an argument that is a literal took a parameter's place: `A if None is not None else B` is B, `if None is None: S`
     is S.  Only tests made of literals are decided; everything else is left."""
 
+    never_none: set = set()
+
     @staticmethod
     def _value(t):
+        if isinstance(t, ast.Compare) and len(t.ops) == 1 and isinstance(t.ops[0], (ast.Is, ast.IsNot)) and isinstance(t.left, ast.Name) and t.left.id in _ConstTests.never_none \
+                and isinstance(t.comparators[0], ast.Constant) and t.comparators[0].value is None:
+            return True, isinstance(t.ops[0], ast.IsNot)
         if isinstance(t, ast.Constant):
             return True, t.value
         if isinstance(t, ast.UnaryOp) and isinstance(t.op, ast.Not):
@@ -1178,9 +1211,29 @@ class Inliner:
             single = {}
             for fq, fi in new.items():
                 body = [x for x in fi.node.body if not (isinstance(x, ast.Expr) and isinstance(x.value, ast.Constant) and isinstance(x.value.value, str))]
-                if len(body) == 1 and isinstance(body[0], ast.Return) and body[0].value is not None and self.inlinable_def(fi) is None:
+                # `if p is None: p = E` in front of the return is the expression with `(E if p is None else p)` for p
+                params_ = {a.arg for a in fi.node.args.posonlyargs + fi.node.args.args + fi.node.args.kwonlyargs}
+                defaults_ = {}
+                while len(body) >= 2 and isinstance(body[0], ast.If) and not body[0].orelse and len(body[0].body) == 1 and isinstance(body[0].body[0], ast.Assign) and len(body[0].body[0].targets) == 1:
+                    t_, a_ = body[0].test, body[0].body[0]
+                    if not (isinstance(t_, ast.Compare) and len(t_.ops) == 1 and isinstance(t_.ops[0], ast.Is) and isinstance(t_.left, ast.Name) and t_.left.id in params_ and t_.left.id not in defaults_
+                            and isinstance(t_.comparators[0], ast.Constant) and t_.comparators[0].value is None and isinstance(a_.targets[0], ast.Name) and a_.targets[0].id == t_.left.id
+                            and not any(isinstance(x, ast.Name) and x.id == t_.left.id for x in ast.walk(a_.value))):
+                        break
+                    defaults_[t_.left.id] = a_.value
+                    body = body[1:]
+                if len(body) == 1 and isinstance(body[0], ast.Return) and body[0].value is not None and (self.inlinable_def(fi) is None or (defaults_ and self.inlinable_def(fi) is None)):
                     if not any(isinstance(x, (ast.Yield, ast.YieldFrom, ast.NamedExpr)) for x in ast.walk(body[0].value)):
-                        single[fq] = (fi, body[0].value)
+                        expr_ = body[0].value
+                        if defaults_:
+                            class _D(ast.NodeTransformer):
+                                def visit_Name(self_, node):
+                                    if isinstance(node.ctx, ast.Load) and node.id in defaults_:
+                                        return ast.copy_location(ast.IfExp(test=ast.Compare(left=ast.Name(id=node.id, ctx=ast.Load()), ops=[ast.Is()], comparators=[ast.Constant(value=None)]), body=copy.deepcopy(defaults_[node.id]), orelse=ast.Name(id=node.id, ctx=ast.Load())), node)
+                                    return node
+
+                            expr_ = ast.fix_missing_locations(_D().visit(copy.deepcopy(expr_)))
+                        single[fq] = (fi, expr_)
             if not single:
                 break
             n = 0
